@@ -86,7 +86,7 @@ theorem appendDate_spec {h1 h2 : Heap} {d dA : Nat} {dS dI dV : Val}
     | exact List.getElem?_set_ne (Ne.symm hne)
 
 theorem appendTime_spec {h2 h3 : Heap} {t tA : Nat} {tS tI dV : Val} {off : Option Rat} {n : Nat} {rd : Option Rat}
-    (ha : appendTime h2 t tS tI off n rd dV = .ok (h3, tA)) :
+    {da : Bool} (ha : appendTime h2 t tS tI off n rd dV da = .ok (h3, tA)) :
     h2.length ≤ h3.length ∧ (tA = t ∨ h2.length ≤ tA) ∧
       ∀ a, a < h2.length → a ≠ t → h3[a]? = h2[a]? := by
   unfold appendTime at ha
